@@ -33,6 +33,7 @@ type ModSet struct {
 	AllHeap  bool // every heap, memory, map and global (but no ghost state)
 	heapT    map[string]types.Type
 	memT     map[string]types.Type
+	mapT     []*types.Map // map types named by mapof(): their heaps are created before use
 }
 
 func newModSet() *ModSet {
@@ -162,6 +163,7 @@ func (e *Engine) addMod(ctx *EvalCtx, ms *ModSet, ex Expr) (err error) {
 			}
 			key := "map:" + typeKey(mt)
 			_ = ctx.cur.mapState(v.V.(*Term), mt) // creates the map heaps of this type if they do not exist yet
+			ms.mapT = append(ms.mapT, mt)
 			for _, sfx := range []string{".dom", ".card"} {
 				ms.HeapRefs[key+sfx] = append(ms.HeapRefs[key+sfx], v.V.(*Term))
 			}
@@ -267,6 +269,9 @@ func (e *Engine) evAppendOnly(st *State, old *evSnap) {
 }
 
 func (e *Engine) havoc(st *State, ms *ModSet) {
+	for _, mt := range ms.mapT {
+		_ = st.mapState(BVU(0, 64), mt)
+	}
 	if ms.All {
 		evOld := e.evSnapshot(st)
 		defer e.evAppendOnly(st, evOld)
